@@ -265,7 +265,7 @@ _add(Prop(
     bounds="Hann: every phase in [0,1] (f64 and f32) with cos replaced by a recording marker returning any value in "
            "[-1,1]; windower step: any remaining length <= 16, ANY usize bin >= 2 and hop >= 1 (one step, with the "
            "closed-form chunk count's recurrence => induction over the run); whole runs: L <= 6 (quick) / 8 (thorough), bin 2..=9, hop 1..=9; "
-           "Window::new(n): n in 2..=64, first 4 frames; hann_f64 over all f64 phases only in the thorough tier "
+           "Window::new(n): n in 2..=64, first frame, and the step the window was built with (hook Phase::verif_step) == 1/(n-1); hann_f64 over all f64 phases only in the thorough tier "
            "(quick: phases k/2^20)",
     outside="numeric Hann facts (symmetry, 1 at p=0.5, 0 at the ends) - they are facts about libm's cos; the exact "
             "phases i/(n-1) for i >= 1: CBMC models float `%` by its range only (measured), so only phase_0 = 0, the "
@@ -363,7 +363,7 @@ _add(Prop(
            "for i16 and u8 (positive half-wave), [i16;2] (full-wave) and f32 (full-wave) - quick tier: gains on the grid "
            "k/256, thorough tier: any f32 gain; the f32-format step uses 12-bit mantissas over 2^-20..2^20 in both tiers "
            "(arbitrary f32 values with arbitrary gains did not finish in 3000 s); gains/setters with powf replaced "
-           "by a recording marker; adaptor: 2 frames",
+           "by a recording marker; adaptor: 2 frames from a source that reports itself exhausted from ANY point on (0..=3)",
     outside="the numeric value of exp(-1/n) (libm; CBMC's powf is unconstrained); monotone convergence over long constant "
             "inputs (follows from the step relation with 0 <= gain <= 1, not separately decided); i64/f64 envelope steps; "
             "negative half-wave envelope steps",
@@ -405,7 +405,8 @@ _add(Prop(
                "Delay, Hz, rms::Rms, envelope::DetectEnvelope, &mut S", "UntilExhausted::next, lift, Take::{next, len, size_hint}, "
                "IntoInterleavedSamples::{next_sample, into_iter}, IntoInterleavedSamplesIterator::next"],
     bounds="sources: 6 samples / frames with symbolic length 0..=6, channel counts 1, 2, 3 (and a bare-sample frame), 3 further "
-           "next() calls after exhaustion; adaptors: two sources of symbolic length 0..=3; delay <= 3; take <= 5",
+           "next() calls after exhaustion; adaptors: two sources of symbolic length 0..=3 (mul_hz: source 0..=3 and multiplier 0..=3 at ratio 1); delay <= 3; take <= 5; "
+           "interleaved-sample adaptor cloned after ANY number of samples of a 3-frame stereo source",
     outside="longer streams (no length-dependent state exists beyond the one-frame look-ahead; stated, not decided); frame "
             "formats other than i16/u8/f32/f64",
     design_ref="DESIGN.md §4 C05",
@@ -423,7 +424,7 @@ _add(Prop(
     functions=["Signal::fork, Fork::{by_ref, by_rc}", "BranchRefA/BranchRefB/BranchRcA/BranchRcB::{next, pending_frames}",
                "dasp_ring_buffer::Bounded::{push, pop, len} underneath"],
     bounds="ALL interleavings (symbolic schedule) of 8 pulls (12 in the thorough tier) on the two by-reference branches from "
-           "the initial state whose lead never exceeds the capacity, capacities 1, 2, 3; re-split after 3 pulls (capacity 2); "
+           "the initial state (an EMPTY ring buffer at ANY start offset, i.e. fresh or used-and-drained) whose lead never exceeds the capacity, capacities 1, 2, 3; re-split after 3 pulls (capacity 2); "
            "reference-counted branches: all interleavings of 6 pulls, capacity 2",
     outside="schedules longer than the bound (the reachable state space - pending flag x queue length <= capacity - is "
             "visited within 8 steps for capacity <= 3: an observation from the covers, not a proof); capacities > 3",
@@ -460,7 +461,8 @@ _add(Prop(
     bounds="one output from ANY state with interpolation value v in [0,3) (quick) / [0,8) (thorough) and ANY finite ratio > 0; "
            "linear: blend formula for i16 frames at ANY fraction in [0,1) and for f64 stereo frames on a grid; the interval "
            "clause for i8 frames with the fraction on the 2^-8 grid (i16 operands did not finish in 900 s); ratio-1 run of 5 outputs; floor run with ratio k/4, 1<=k<=12, R <= 3 source frames after priming, up to 18 "
-           "outputs; mul_hz: 4 outputs with fixed control values",
+           "outputs; mul_hz: 4 outputs with fixed control values; setters: ANY finite ratio > 0 through set_playback_hz_scale, the unit "
+           "ratio through all three setters, each from ANY position v (ratio changed, position untouched)",
     outside="sinc (C18); accumulated rounding of non-dyadic ratios over long runs (the position P_n is stated in the "
             "converter's own f64 arithmetic - the real-number drift is not decided); v >= 8 in one step; Linear for other "
             "integer formats",
